@@ -1418,6 +1418,30 @@ static void worker_enumerate(const Args& A, Walk& W, const Tune& t) {
     };
     for_tokens(W, RAW, 0, t.kidna, one);
     for_tokens(W, idna_tokens(), 1, t.kidna_idn, one);
+    // punycode guard-boundary family (RFC 3492 overflow tests): a run of m = 0..8 maximal digits '9' followed by every single
+    // digit and every pair of digits over the 36 punycode digit characters, alone and after the basic prefixes "a-" and "ab-";
+    // as a bare label, as an xn-- label, and as a label of a host that also has a non-ASCII label (so that to_ascii decodes it)
+    {
+      static const char DIG[] = "abcdefghijklmnopqrstuvwxyz0123456789";
+      const char* const PRE[3] = {"", "a-", "ab-"};
+      auto pone = [&](const std::string& lab) {
+        const uint64_t u = W.unit();
+        const std::string x = "xn--" + lab, h = x + "." EACUTE;
+        cb_begin(ST_IDNA8, u); cb_add(OP_I_PUNY, 0, 1, lab); W.run();
+        cb_begin(ST_IDNA8, u); cb_add(OP_I_TO_UNICODE, 0, 1, x); W.run();
+        cb_begin(ST_IDNA8, u); cb_add(OP_I_TO_ASCII, 0, 1, h); W.run();
+        for (int ty = 0; ty < 2; ty++) { cb_begin(ST_IDNA8, u); cb_add(OP_PARSE, ty, 1, "https://" + h + "/"); cb_add(OP_GETTERS, ty); W.run(); }
+      };
+      for (int m = 0; m <= 8 && !W.cut; m++)
+        for (int d1 = 0; d1 < 36; d1++)
+          for (int d2 = -1; d2 < 36; d2++)
+            for (int pi = 0; pi < 3; pi++) {
+              if (!W.take()) continue;
+              std::string lab = std::string(PRE[pi]) + std::string(size_t(m), '9') + DIG[d1];
+              if (d2 >= 0) lab.push_back(DIG[d2]);
+              pone(lab);
+            }
+    }
     W.end_stage();
   }
 
@@ -1557,6 +1581,34 @@ static void worker_enumerate(const Args& A, Walk& W, const Tune& t) {
       if (!W.take()) { if (W.cut) break; continue; }
       std::string h = oct[size_t(od.idx[0])] + "." + oct[size_t(od.idx[1])] + "." + oct[size_t(od.idx[2])] + "." + oct[size_t(od.idx[3])] + (od.idx[4] == 1 ? "." : od.idx[4] == 2 ? ".." : "");
       one(h);
+    }
+    // IPv4 number guard boundaries: 2^8, 2^16, 2^24, 2^32, 2^64 (each -1, +0, +1) in decimal, hex and octal, at every position of
+    // a 4-part address and as the last part of 1-, 2- and 3-part addresses, with and without a trailing dot
+    {
+      auto radix = [](unsigned __int128 v, int base) {
+        std::string d;
+        if (v == 0) d = "0";
+        while (v) { d.insert(d.begin(), "0123456789abcdef"[int(v % unsigned(base))]); v /= unsigned(base); }
+        return std::string(base == 16 ? "0x" : base == 8 ? "0" : "") + d;
+      };
+      std::vector<std::string> nums;
+      for (int sh : {8, 16, 24, 32, 64})
+        for (int dlt = -1; dlt <= 1; dlt++) {
+          unsigned __int128 v = ((unsigned __int128)1 << sh) + (unsigned __int128)(dlt + 1) - 1;
+          for (int base : {10, 16, 8}) nums.push_back(radix(v, base));
+        }
+      for (auto& n : nums)
+        for (int form = 0; form < 7; form++)
+          for (int dot = 0; dot < 2; dot++) {
+            if (!W.take()) continue;
+            std::string h;
+            switch (form) {
+              case 0: h = n; break; case 1: h = "1." + n; break; case 2: h = "1.2." + n; break; case 3: h = "1.2.3." + n; break;
+              case 4: h = n + ".2.3.4"; break; case 5: h = "1." + n + ".3.4"; break; default: h = "1.2." + n + ".4"; break;
+            }
+            if (dot) h += ".";
+            one(h);
+          }
     }
     W.end_stage();
   }
